@@ -483,38 +483,55 @@ class ContDomain(Domain):
         return True
 
     def _std_range_algo(self, ex, n, q, base, args, st, fr):
-        """<memory> / <algorithm> calls over raw pointer ranges of the element storage as range events; returns (result,) or None"""
+        """<memory> / <algorithm> calls over element ranges as range events; a range end may be a raw pointer into a block, an
+        iterator of a container object (logical index), or begin()/end() of the initializer list; returns (result,) or None"""
         A = [ex._rvalue(a, st, fr) if a is not None else None for a in args]
-        def P(v): return v if isinstance(v, Ptr) and isinstance(v.off, Lin) else None
+
+        def end_of(v):
+            """('raw', base, offset) / ('logical', obj, index) for one range end"""
+            if isinstance(v, Ref):
+                x = st.store.get(v.loc); v = x if x is not None else v
+            if isinstance(v, Ptr) and isinstance(v.off, Lin): return ('raw', v.base, v.off)
+            if isinstance(v, Sym) and v.name == 'il.begin': return ('logical', 'il', Lin.const(0))
+            if isinstance(v, Sym) and v.name == 'il.end': return ('logical', 'il', Lin.sym('il.size'))
+            if isinstance(v, Record) and isinstance(v.f.get('m_container'), Ref) and as_lin(v.f.get('m_index')) is not None and isinstance(v.f.get('m_index'), (Lin, int)):
+                loc = v.f['m_container'].loc
+                if loc[0] == 'f': return ('logical', '.'.join(map(str, loc[1])), as_lin(v.f['m_index']))
+            return None
+
         def rng(first, last=None, cnt=None):
-            f_ = P(first)
+            f_ = end_of(first)
             if f_ is None: return None
             if last is not None:
-                l_ = P(last)
-                if l_ is None or l_.base != f_.base: return None
-                return f_.base, f_.off, l_.off
+                l_ = end_of(last)
+                if l_ is None or l_[:2] != f_[:2]: return None
+                return f_[0], f_[1], f_[2], l_[2]
             c_ = as_lin(cnt) if isinstance(cnt, (Lin, int)) else None
             if c_ is None: return None
-            return f_.base, f_.off, f_.off + c_
+            return f_[0], f_[1], f_[2], f_[2] + c_
+
         def emit(kind, r, src, pair=False):
             # an iterator-pair algorithm walks `first != last`: a reversed range does not stop (unlike an `i < end` loop)
-            self.c_event(st, n, 'range', kind, ('raw', r[0]), r[1], r[2], src, 'iterpair' if pair else 'counted')
-        def src_of(first, r):
-            s_ = P(first)
-            if s_ is None: return None
-            return ('raw', s_.base, s_.off, s_.off + (r[2] - r[1]))
-        def valsrc(v): return ('value', repr(v))
+            self.c_event(st, n, 'range', kind, (r[0], r[1]), r[2], r[3], src, 'iterpair' if pair else 'counted')
+
+        def dst_for(first, length):
+            d_ = end_of(first)
+            return None if d_ is None else (d_[0], d_[1], d_[2], d_[2] + length)
+
+        def out(r): return Ptr(r[1], r[3]) if r[0] == 'raw' else Sym('ret:it')
+        valsrc = lambda v: ('value', repr(v))
         res = None
         if q in ('std::uninitialized_copy_n', 'std::uninitialized_move_n', 'std::copy_n') and len(A) == 3:
-            r = rng(A[2], cnt=A[1])
-            if r and P(A[0]) is not None: emit('construct' if 'uninit' in q else 'assign', r, src_of(A[0], r)); res = Ptr(r[0], r[2])
+            c_ = as_lin(A[1]) if isinstance(A[1], (Lin, int)) else None
+            s_ = rng(A[0], cnt=A[1]); r = dst_for(A[2], c_) if c_ is not None else None
+            if r and s_: emit('construct' if 'uninit' in q else 'assign', r, s_); res = out(r)
         elif q in ('std::uninitialized_copy', 'std::uninitialized_move', 'std::copy', 'std::move') and len(A) == 3:
-            s_ = rng(A[0], last=A[1]); d_ = P(A[2])
-            if s_ and d_ is not None:
-                r = (d_.base, d_.off, d_.off + (s_[2] - s_[1])); emit('construct' if 'uninit' in q else 'assign', r, ('raw', s_[0], s_[1], s_[2]), pair=True); res = Ptr(r[0], r[2])
+            s_ = rng(A[0], last=A[1])
+            r = dst_for(A[2], s_[3] - s_[2]) if s_ else None
+            if r and s_: emit('construct' if 'uninit' in q else 'assign', r, s_, pair=True); res = out(r)
         elif q in ('std::uninitialized_fill_n', 'std::fill_n') and len(A) == 3:
             r = rng(A[0], cnt=A[1])
-            if r: emit('construct' if 'uninit' in q else 'assign', r, valsrc(A[2])); res = Ptr(r[0], r[2])
+            if r: emit('construct' if 'uninit' in q else 'assign', r, valsrc(A[2])); res = out(r)
         elif q in ('std::uninitialized_fill', 'std::fill') and len(A) == 3:
             r = rng(A[0], last=A[1])
             if r: emit('construct' if 'uninit' in q else 'assign', r, valsrc(A[2]), pair=True); res = Sym('void')
@@ -523,13 +540,13 @@ class ContDomain(Domain):
             if r: emit('construct', r, ('value', 'T()'), pair=True); res = Sym('void')
         elif q in ('std::uninitialized_value_construct_n', 'std::uninitialized_default_construct_n') and len(A) == 2:
             r = rng(A[0], cnt=A[1])
-            if r: emit('construct', r, ('value', 'T()')); res = Ptr(r[0], r[2])
+            if r: emit('construct', r, ('value', 'T()')); res = out(r)
         elif q == 'std::destroy' and len(A) == 2:
             r = rng(A[0], last=A[1])
             if r: emit('destroy', r, None, pair=True); res = Sym('void')
         elif q == 'std::destroy_n' and len(A) == 2:
             r = rng(A[0], cnt=A[1])
-            if r: emit('destroy', r, None); res = Ptr(r[0], r[2])
+            if r: emit('destroy', r, None); res = out(r)
         return (res,) if res is not None else None
 
     def sizeof_value(self, n):
